@@ -1333,6 +1333,8 @@ class n0dict(n0dict_):
                     else:
                         parent_node.update({cur_node_name: n0list()})
                     parent_node = parent_node[cur_node_name]
+                if next_node_index and next_node_index != "new()" and next_node_index != "0":
+                    raise SyntaxError(f"Nonsence! Impossible to add item [{next_node_index}] to the list which is just created")
                 if next_node_name:
                     if not next_node_index:
                         # Next is pure dict
@@ -1341,22 +1343,24 @@ class n0dict(n0dict_):
                         next_node_name_index = next_node_name
                     else:
                         # Next is list under dict
-                        parent_node.append(n0dict({next_node_name: n0list()}))
+                        parent_node.append(n0dict({next_node_name: n0list([None])}))
                         next_node = parent_node[-1][next_node_name]
-                        # Expected to have 'new()' in next_node_index, else it will be failed at the next step
-                        next_node_name_index = f"[{next_node_index}]"
+                        # item[0] == None, will be reused at the next step with last()
+                        next_node_name_index = "[last()]"
                 elif next_node_index:
                     # List under list: [0][0] or [0]/[0]
-                    parent_node.append(n0list([]))
+                    parent_node.append(n0list([None]))
                     next_node = parent_node[-1]
-                    # Expected to have 'new()' in next_node_index, else it will be failed at the next step
-                    next_node_name_index = f"[{next_node_index}]"
+                    # item[0] == None, will be reused at the next step with last()
+                    next_node_name_index = "[last()]"
                 else:
                     raise ValueError("Nonsence! Both next_node_name and next_node_index could NOT be empty")
             elif cur_node_index == "last()":
                 # Came from previous level: we create [None] and point to [last()] for exchange
                 if not isinstance(parent_node, (list, tuple, n0list)):
                     raise ValueError(f"Nonsence! if index '{cur_node_index}' is set, then ({type(parent_node)}){str(parent_node)} must be n0list")
+                if next_node_index and next_node_index != "new()" and next_node_index != "0":
+                    raise SyntaxError(f"Nonsence! Impossible to add item [{next_node_index}] to the list which is just created")
                 if next_node_name:
                     if not next_node_index:
                         # Next is pure dict
@@ -1365,17 +1369,16 @@ class n0dict(n0dict_):
                         next_node_name_index = next_node_name
                     else:
                         # Next is list under dict
-                        # parent_node[-1] = n0dict({next_node_name: n0list([])})
-                        parent_node[-1] = n0dict({next_node_name: n0list()})
+                        parent_node[-1] = n0dict({next_node_name: n0list([None])})
                         next_node = parent_node[-1][next_node_name]
-                        # Expected to have 'new()' in next_node_index, else it will be failed at the next step
-                        next_node_name_index = f"[{next_node_index}]"
+                        # item[0] == None, will be reused at the next step with last()
+                        next_node_name_index = "[last()]"
                 elif next_node_index:
                     # List under list: [0][0] or [0]/[0]
-                    parent_node.append(n0list([]))
+                    parent_node[-1] = n0list([None])
                     next_node = parent_node[-1]
-                    # Expected to have 'new()' in next_node_index, else it will be failed at the next step
-                    next_node_name_index = f"[{next_node_index}]"
+                    # item[0] == None, will be reused at the next step with last()
+                    next_node_name_index = "[last()]"
             # New fix
             elif n0eval(cur_node_index) == len(parent_node):
                 parent_node.append(None)
